@@ -55,6 +55,42 @@ func runDump(w *World, args []string) {
 				}
 			}
 		}
+	case "fn":
+		// dump fn <key> [mode]
+		fi := w.Funcs[args[1]]
+		if fi == nil {
+			fmt.Println("no such function")
+			return
+		}
+		mode := "decode"
+		if len(args) > 2 {
+			mode = args[2]
+		}
+		fs := w.Interpret(fi, mode)
+		for _, s := range fs.Sites {
+			fmt.Printf("   site %s %s %s buf=%s origin=%s:", w.Pos(s.Pos), s.Kind, s.Text, s.Buf, s.Origin)
+			for _, n := range s.Needs {
+				ok, _ := Prove(n.A, n.B, s.Facts)
+				fmt.Printf(" [%v <= %v : %v]", n.A, n.B, ok)
+			}
+			fmt.Println()
+		}
+		for _, s := range fs.Stores {
+			fmt.Printf("   store %s %s %s [%s]\n", s.Path, s.Op, s.RHS, s.Guard)
+		}
+		for _, rr := range fs.Rets {
+			var vs []string
+			for _, v := range rr.Vals {
+				vs = append(vs, v.valString())
+			}
+			fmt.Printf("   ret %s [%s] iserr=%v (%s)\n", w.Pos(rr.Pos), rr.Guard, rr.IsErr, strings.Join(vs, ", "))
+		}
+		for _, l := range fs.Loops {
+			fmt.Printf("   loop %s %s cond=%s bounded=%q\n", w.Pos(l.Pos), l.Kind, l.Cond, l.Bounded)
+		}
+		for _, n := range fs.Notes {
+			fmt.Printf("   note: %s %s\n", w.Pos(n.Pos), n.Text)
+		}
 	case "facts":
 		for _, k := range w.KindsL {
 			if k.Len == nil || k.Marshal == nil {
